@@ -65,7 +65,7 @@ def bounds(tier, seed):
         "tier": tier,
         "kmax": 2 if tier == "quick" else 3,
         "station_orders": 6,
-        "constraint_orders": 4 if tier == "quick" else 24,
+        "constraint_orders": "4 per station order" if tier == "quick" else "4 per station order + all 24 for the template's station order",
         "shifts": [1, 3],
         "hashseed_slice": 200 if tier == "quick" else 1500,
     }
@@ -87,7 +87,9 @@ def base_scenarios(tier):
     for netname in ("N6", "N2", "N3"):
         stations = list(S.NETS[netname]["stations"])
         pool = [sess(st, a, sy, kd, i) for i, (st, a, sy, kd) in enumerate(itertools.product(stations, (0, 1, 2), (2, 3) if not thorough else (1, 2, 4), ("big", "small", "l2c")))]
-        for ss in S.session_subsets(pool, 2, 3 if thorough else 2):
+        pool3 = [sess(st, a, sy, kd, i) for i, (st, a, sy, kd) in enumerate(itertools.product(stations, (0, 1, 2), (2, 3), ("big", "small")))]
+        subsets = list(S.session_subsets(pool, 2, 2)) + (list(S.session_subsets(pool3, 3, 3)) if thorough else [])
+        for ss in subsets:
             # pairwise distinct priority keys: arrivals and departures all different
             if len({s["a"] for s in ss}) < len(ss) or len({s["d"] for s in ss}) < len(ss):
                 continue
@@ -167,7 +169,10 @@ def variants(base, tier):
     k = len(base["sessions"])
     out = [("rebuild", {})]
     for order in itertools.permutations(stations):
-        for co in corders(ncons, tier):
+        # every station order x a small set of constraint orders; thorough: the registration order of
+        # the template additionally meets ALL constraint orders
+        cos = corders(ncons, "thorough" if (tier == "thorough" and list(order) == stations) else "quick")
+        for co in cos:
             if list(order) == stations and co == list(range(ncons)):
                 continue
             out.append(("net-order", {"order": list(order), "corder": co}))
